@@ -188,6 +188,18 @@ Theorem normalised_machine_canonical : forall (F : fops) (dbg : bool) (c : cfg) 
      Forall (gcanon bits) (s_stack s')).
 Proof. exact normalised_machine_lemma. Qed.
 
+(* The hypothesis n < u32::MAX of iteration_bound is necessary: `self.iteration += 1` is a plain u32 addition that is
+   executed before the comparison `iteration > max_iterations`, which can never hold for max_iterations = u32::MAX.
+   For the self-loop `DW_OP_skip -3` with set_max_iterations(u32::MAX) the model of the debug build panics at the
+   2^32-th iteration and the model of the release build never terminates, whatever the fuel.  (Model-level statement:
+   2^32 iterations of the real evaluator are out of reach of the correspondence streams; the code is the same
+   `+= 1` for every limit.  proposed_fixes/c07_iteration_counter_overflow.diff) *)
+Theorem iteration_limit_u32_max_refuted :
+  c_max loop_cfg = Some 4294967295 /\
+  (exists fuel, run no_fops fuel true loop_cfg loop_prog [] = ([], FPanic)) /\
+  (forall fuel, run no_fops fuel false loop_cfg loop_prog [] = ([], FOutOfFuel)).
+Proof. exact iteration_limit_u32_max_lemma. Qed.
+
 Definition ex_cfg (maxit : option N) : cfg := mkCfg (mkEnc 4 false 4 false) None maxit None None None None None.
 Example iteration_ex_loop :     (* `DW_OP_skip -3` jumps to itself: the limit error, not a hang *)
   run no_fops 7 true (ex_cfg (Some 6)) [x2f; xfd; xff] [] = ([], FErr ETooManyIterations).
